@@ -243,6 +243,13 @@ def run_linop(ctx, prop, prop_file, n_quick, n_thorough, want):
         x0, yv0 = x.copy(), yv.copy()
         snaps = [(a, a.copy()) for _, a in S.arrays.values()]
         try:
+            if not has_conv and np.iscomplexobj(x) and rng.random() < 0.5:
+                # the same operator OBJECT is first applied to the real part stored in a real dtype (and so are its .H / .N when they
+                # are judged below): nothing an object remembers from an earlier input may change what it does to the next one
+                _ = A(np.ascontiguousarray(x.real))
+                if want & {"normal", "applyN"}:
+                    _ = A.N(np.ascontiguousarray(x.real))
+                ctx.coverage["histogram"]["warm-up:real-dtype-first"] = ctx.coverage["histogram"].get("warm-up:real-dtype-first", 0) + 1
             y = np.asarray(A(x))
             if "shapes" in want:
                 add("chk_shapes %s %s" % (T, S.shapes_lit(A)), "shapes", info)
@@ -351,6 +358,15 @@ def run_linop(ctx, prop, prop_file, n_quick, n_thorough, want):
                 exprs = [("a*A", a * T1, a * D1), ("A*a", T1 * a, a * D1), ("-A", -T1, -D1), ("A+B", T1 + T2, D1 + D2),
                          ("A-B", T1 - T2, D1 - D2), ("A*B", T1 * T3, D1 @ D3), ("a*(A+B)", a * (T1 + T2), a * (D1 + D2)),
                          ("(a*A)*B", (a * T1) * T3, a * (D1 @ D3)), ("A-a*B", T1 - a * T2, D1 - a * D2)]
+                # an operator that has been an OPERAND of +, -, * is unchanged by that (S = A + B kept, then S + C, S - C, a*S built)
+                Ssum = T1 + T2
+                Dsum = linser.dense(Ssum)
+                nlin = len(getattr(Ssum, "linops", []))
+                _ = [Ssum + T1, Ssum - T2, a * Ssum, Ssum * T3, Ssum + (T1 + T2)]
+                if linser.dense(Ssum).shape != Dsum.shape or not np.allclose(linser.dense(Ssum), Dsum, rtol=1e-12, atol=1e-12) \
+                        or len(getattr(Ssum, "linops", [])) != nlin:
+                    note_fail("overload:operand-mutated", "a sum operator S = A + B changed after S + C, S - C, a*S, S*C were built from it",
+                              {"kind": "oracle", "A": repr(T1)[:200], "terms_before": nlin, "terms_after": len(getattr(Ssum, "linops", []))})
                 for nm, op, ref in exprs:
                     ctx.count(prop + ":overload:" + nm, key=(repr(T1)[:80], nm, k), nontrivial=True)
                     M = linser.dense(op)
